@@ -633,11 +633,8 @@ def build(ctx):
     if prep == 5:
         # keep_only() with everything the tree holds: "any job not belonging in self is ignored",
         # so nothing changes anywhere
-        everything = list(top.iterate_jobs(scan_schedulers=True))
-        for s in range(1, n + 1):
-            sched = ctx.obj[s]
-            if isinstance(sched, PureScheduler):
-                sched.keep_only(everything)
+        everything = [x for x in top.iterate_jobs(scan_schedulers=True) if x is not top]
+        top.keep_only(everything)
     if prep == 6:
         # one requirement of each job is declared again through a Sequence with an empty
         # sequence in the middle: Sequence(r, Sequence(), j) says no more than "j requires r"
@@ -737,7 +734,14 @@ def _run_scenario(sc):
     loop.horizon = hor
     try:
         with contextlib.redirect_stdout(sink):
-            top = build(ctx)
+            try:
+                top = build(ctx)
+            except PreShutFailed:
+                raise
+            except BaseException as exc:                # pylint: disable=W0703
+                # the tree could not even be put together with the calls the documentation offers
+                ctx.log("build-exc", 1, type(exc).__name__)
+                raise PreShutFailed()
             if ctx.cfg.get("preshut"):
                 # shutdown() before the run: every job hears of it now, and never again
                 ctx.pre = True
